@@ -8,6 +8,10 @@ import (
 
 func TestWorker(t *testing.T) {
 	kit.WorkerMain(t, "pbfsim", map[string]kit.RunFunc{
+		"C01": runC01,
+		"C02": runC02,
 		"C06": runC06,
+		"C08": runC08,
+		"C09": runC09,
 	})
 }
